@@ -58,6 +58,9 @@ func MakeSpec(n int, gasScale uint64, nameChange bool, ownerPick int, reward str
 		owner := spec.Users[(2*s+ownerPick)%len(spec.Users)]
 		spec.Contracts = append(spec.Contracts, ContractSpec{Addr: scAddr(s, s), Owner: owner, Reward: reward})
 	}
+	// a second contract on shard 0, so that contract-to-contract calls (the only ones with call types other than
+	// DirectCall, N7) also occur within one shard
+	spec.Contracts = append(spec.Contracts, ContractSpec{Addr: scAddr(5, 0), Owner: spec.Users[(1+ownerPick)%len(spec.Users)], Reward: reward})
 	spec.DNS = []HB{scAddr(0, 0)}
 	return spec
 }
@@ -69,7 +72,7 @@ var baseWeights = Weights{
 	"issue": 6, "setrole": 6, "unsetrole": 1, "transfer": 10, "nfttransfer": 8, "multi": 10, "mint": 3, "localburn": 2, "burn": 2,
 	"create": 7, "addq": 2, "nftburn": 2, "adduri": 2, "update": 2, "freeze": 2, "unfreeze": 2, "wipe": 1, "pause": 1, "unpause": 2,
 	"handover": 2, "seedhandover": 1, "deliver": 14, "redeliver": 1, "changeowner": 1, "claim": 1, "setusername": 1, "skv": 2,
-	"payable": 2, "gas": 1, "epoch": 1, "mutate": 8, "unstructured": 4,
+	"payable": 2, "gas": 1, "epoch": 1, "mutate": 8, "unstructured": 4, "plant": 0,
 }
 
 func (w Weights) with(over Weights) Weights {
@@ -639,6 +642,23 @@ func (g *Gen) byKind(kind string) Op {
 		return callOp(c)
 	case "skv":
 		return callOp(g.genSKV())
+	case "plant":
+		hs := g.holdings("N")
+		if len(hs) == 0 {
+			return g.byKind("create")
+		}
+		h := hs[g.pick("pl-h", len(hs))]
+		var free [][]byte
+		for _, a := range g.holders {
+			if m.acc(g.shard(a), a).bal(h.suffix).Sign() == 0 {
+				free = append(free, a)
+			}
+		}
+		if len(free) == 0 {
+			return g.byKind("nfttransfer")
+		}
+		g.Layer = "env"
+		return Op{Kind: "plant", Addr: free[g.pick("pl-a", len(free))], Token: h.token, Count: h.nonce, Mode: 1 + g.pick("pl-q", 3)}
 	case "payable":
 		a := g.addr("pay-addr")
 		g.Layer = "env"
